@@ -7,10 +7,12 @@ import re, sys, os, json
 base, out, prop, unit, keep = sys.argv[1:6]
 rest = sys.argv[6:]
 auxl, notcov = [], []
+appendf = None
 while rest:
     k = rest.pop(0)
     if k == "--aux-lemma": auxl.append(rest.pop(0))
     elif k == "--not-covered": notcov.append(rest.pop(0))
+    elif k == "--append": appendf = rest.pop(0)
 keep = re.compile(keep)
 src = open(base).read().split("\n")
 res = []
@@ -56,5 +58,8 @@ for line in src:
                 cbase = mm.group(2)[5:] if mm.group(2).startswith("#aux ") else mm.group(2)
                 line = f'{mm.group(1)}"{cbase if keep.search(cbase) else "#aux " + cbase}"{mm.group(3)}'
     res.append(line)
-open(out, "w").write("\n".join(res))
+txt = "\n".join(res)
+if appendf:
+    txt += "\n" + open(appendf).read()
+open(out, "w").write(txt)
 print(f"derived {out} from {base}")
